@@ -409,6 +409,7 @@ func init() {
 			})
 		}
 		x.defNat("globCacheBuiltFromConfig", uint64(uses))
+		c15EmitIndexGuards(x)
 		return nil
 	})
 }
